@@ -81,11 +81,18 @@ def selftest(ctx, trace):
     """The trace validation must be able to say no: turn one recorded denial into an execution."""
     lines = []
     hit = None
+    pubgrant = False
     with open(trace) as f:
         for line in f:
             e = json.loads(line)
-            if hit is None and e.get("ev") == "Cmd" and e["code"] in ("E_AUTH_FIRST", "E_UNAUTHORIZED") \
-                    and e["c"]["op"] in ("PUB", "DPUB"):
+            if e.get("ev") == "Reset":
+                pubgrant = False
+            elif any("publish" in z.get("perms", []) for z in ((e.get("a") or {}).get("auths") or [])):
+                pubgrant = True     # some answer on this connection granted publish on something
+            # a denial that the PROPERTY demands (not one the code adds on top, such as wanting a channel pattern
+            # for a publish): never authorised, or no answer so far granted publish at all
+            if hit is None and e.get("ev") == "Cmd" and e["c"]["op"] in ("PUB", "DPUB") \
+                    and (e["code"] == "E_AUTH_FIRST" or (e["code"] == "E_UNAUTHORIZED" and not pubgrant)):
                 e.update(frame="response", code="OK", closed=False, topics=[e["c"]["t"]],
                          enq=dict(e["enq"], **{e["c"]["t"]: e["enq"][e["c"]["t"]] + 1}))
                 hit = len(lines)
